@@ -17,7 +17,7 @@ RULE = ('1-2 real ActiveObjects subscribe to a signal with queue_type fifo, lifo
 ASSUMPTIONS = ['anchor: docs/source/recipes.rst ("subscribes in a lifo way -> posted with post_lifo") and glossary.rst']
 PROBES = ['delivery_with_pending_events']
 PLAN = {
-  'quick': {'strata': {'pending': 3000}, 'wall_s': 150, 'chunk': 50, 'min_conclusive': 800},
+  'quick': {'strata': {'pending': 3000}, 'wall_s': 300, 'chunk': 50, 'min_conclusive': 800},
   'thorough': {'strata': {'pending': 80000}, 'wall_s': 900, 'chunk': 100, 'min_conclusive': 8000},
 }
 
